@@ -51,11 +51,12 @@ def run_component_case(c, want_jac=True):
     real_flat = flat_cat(real, outputs)
     consts = list(c.get("consts", []))
     in_flat = flat_cat(inputs, list(inputs))
-    floats = np.concatenate([np.array(consts, dtype=float), in_flat])
+    post = np.asarray(c.get("post_consts", []), dtype=float).ravel()
+    floats = np.concatenate([np.array(consts, dtype=float), in_flat, post])
     vtol = c.get("vtol", 1e-9)
     jtol = c.get("jtol", 1e-7)
     if want_jac and c.get("jac", True):
-        wrt = list(range(len(consts), len(floats)))
+        wrt = list(range(len(consts), len(consts) + len(in_flat)))
         mval, mJ = core.model_jacobian(c["op"], c["ints"], floats, wrt)
         osz = {o: real[o].size for o in outputs}
         isz = {i: np.asarray(inputs[i]).size for i in inputs}
